@@ -112,7 +112,7 @@ def handle (j : Json) : Except String Json := do
   let extra : List (String × Json) ← match j.getObjVal? "checkData" with
     | .ok (.obj kvs) => do
       let fs ← kvs.toList.mapM (fun (k, v) => do return (k, ← decJVal v))
-      pure [("conforms", Json.bool (conformsData s doc opName vars fs))]
+      pure [("conforms", Json.bool (conformsData s doc opName vars w fs))]
     | .ok .null => pure []
     | .ok _ => pure [("conforms", Json.bool false)]      -- data must be an object
     | .error _ => pure []
